@@ -129,6 +129,17 @@ claim("C08", "exploration",
       "Release notices (HANDLE_DEL) still in flight when a stream ends are not counted as unanswered; HANDLE_CLOSE excluded.",
       "DESIGN.md §4 C08")
 
+claim("C10", "exploration",
+      "model-based history testing (Hypothesis) over a held-mode link where delivery of each one-way stream is an explicit "
+      "step; invariants over the owner's table after every step; plus preemption-bounded DFS of the re-send vs. "
+      "release-notice race at line granularity inside the reference-counting collection",
+      "The relative order in which the two one-way message streams are consumed is generated data (nothing is delivered "
+      "until the history says so), so a release notice crossing a fresh reference is constructed rather than hoped for "
+      "(the evidence counts crossings). Invariants: alive while held or in flight, gone when drained and dropped, identity "
+      "on pass-back, empty after close.",
+      "Lendable objects are builtin lists (no nested INSPECT); CPython refcounting finalises dropped proxies immediately.",
+      "DESIGN.md §4 C10")
+
 NOT_YET = "check not built yet in this revision (see DESIGN.md §8 build order)"
 
 
